@@ -54,6 +54,7 @@ def run(repo: Repo, chk: Check) -> None:
         "arithmetic of convert-dart-to-snax-stream is not decided."
     )
     offset(repo, chk)
+    dedupe_key(repo, chk)
     operand_index(repo, chk)
     relevance(repo, chk)
     routing(repo, chk)
@@ -83,6 +84,22 @@ def _origin_evals(cone: ast.AST) -> list[ast.Call]:
         if isinstance(n, ast.Call) and isinstance(n.func, ast.Attribute) and n.func.attr == "eval" and n.args and _is_zero_list(n.args[0]):
             out.append(n)
     return out
+
+
+def dedupe_key(repo: Repo, chk: Check) -> None:
+    """layout resolution works per USE of a buffer: strides, pointer shift and pattern belong to (operand position, buffer). A table that hands an
+    earlier result to a later use has to be keyed by everything that result was computed from"""
+    from .common import loop_dedupe_audit
+
+    chk.rule("C02.dedupe-key", "a table that LayoutResolution fills in a loop and consults to skip work is keyed by every loop variable the stored value depends on "
+             "(a buffer used by two operands has its own offset and pattern per use)", floor=0)
+    f = repo.func(LAYRES, "LayoutResolution.match_and_rewrite")
+    fl = Flow(f, repo)
+    for d, st, deps, key_vars in loop_dedupe_audit(fl, f):
+        missing = deps - key_vars
+        chk.result(not missing, "C02.dedupe-key", f"{f.key}:{d}", st.where(), f"`{d}` is keyed by {sorted(key_vars)}, which determine the stored value",
+                   f"`{d}` remembers a value computed from {sorted(deps)} under a key that only determines {sorted(key_vars)}: a later use with the same key and another "
+                   f"{sorted(missing)} gets the first use's value (the same buffer streamed through two operands with different offsets starts at the first operand's address)")
 
 
 def offset(repo: Repo, chk: Check) -> None:
@@ -577,6 +594,9 @@ def _norm_aff(e) -> Counter:
                 return None
             dim, mod, div = inner
             if x.f["op"] == "%":
+                if mod is None and div is not None:
+                    # (d // F) % X is (d % (F * X)) // F for the non-negative indices of a layout
+                    return (dim, (_P(div[0], tuple(div[1])) * p).key(), div)
                 if mod is not None or div is not None:
                     return None
                 return (dim, p.key(), None)
@@ -618,9 +638,9 @@ def _norm_aff(e) -> Counter:
     return out
 
 
-def tsl_affine(repo: Repo, chk: Check) -> None:
+def tsl_affine(repo: Repo, chk: Check, rule: str = "C02.tsl-affine") -> None:
     chk.rule(
-        "C02.tsl-affine",
+        rule,
         "TiledStridedLayoutAttr.get_affine_map, evaluated with symbolic bounds and steps over the repo's own TSL classes for every tiling "
         "profile of 1-2 dimensions with 1-4 tile levels each, equals offset + sum over (dim, depth) of "
         "step * ((d_dim mod prod(bounds[depth:])) div prod(bounds[depth+1:]))",
@@ -654,12 +674,12 @@ def tsl_affine(repo: Repo, chk: Check) -> None:
         try:
             res = ex.run(g.node.body, {"self": self_o})
         except AbsRaise as e:
-            chk.bad("C02.tsl-affine", key, g.where, f"tiling profile {prof}: the static layout is rejected ({e})")
+            chk.bad(rule, key, g.where, f"tiling profile {prof}: the static layout is rejected ({e})")
             continue
         except Undecided as e:
             raise AnalysisError(f"get_affine_map not analysable for tiling profile {prof}: {e}") from None
         if not (isinstance(res, Obj) and res.cls == "AffineMap" and isinstance(res.f["results"], (tuple, list)) and len(res.f["results"]) == 1):
-            chk.bad("C02.tsl-affine", key, g.where, f"tiling profile {prof}: result is not a single-result affine map")
+            chk.bad(rule, key, g.where, f"tiling profile {prof}: result is not a single-result affine map")
             continue
         got = _norm_aff(res.f["results"][0])
         want: Counter = Counter()
@@ -679,7 +699,10 @@ def tsl_affine(repo: Repo, chk: Check) -> None:
                 got[plain] += got.pop(modded)
         ok = got == want
         ndim = res.f["num_dims"]
-        chk.result(ok and ndim == len(prof), "C02.tsl-affine", key, g.where,
+        if not ok and any(k[0] == "?" for k in got):
+            # a term the normal form does not read is not evidence of a wrong map
+            raise AnalysisError(f"{g.where}: tiling profile {prof}: the layout map contains a term the closed-form comparison does not interpret: {_show_terms(got - want)}")
+        chk.result(ok and ndim == len(prof), rule, key, g.where,
                    f"tiling profile {prof}: {sum(prof)} terms with the expected modulus and divisor products",
                    f"tiling profile {prof}: layout map differs from the closed form; unexpected terms {_show_terms(got - want)}; missing terms {_show_terms(want - got)}")
 
